@@ -111,6 +111,18 @@ Definition spec_ranges (e : cstyle) : list ritem :=
 Definition spec_in_range (e : cstyle) (v : Z) : bool :=
   existsb (fun i => match i with RItem lo hi => le_lo lo v && le_hi v hi | RItemAuto => false end) (spec_ranges e).
 
+(* steps 4 and 5 (and the pad descriptor, 3.7): the pad symbol is prepended (pad - length) times, where length
+   counts the initial representation and, for a negative value of a style using a negative sign, BOTH negative
+   symbols; then the representation is wrapped in them *)
+Definition spec_finish (e : cstyle) (use_neg : bool) (t : text) : text :=
+  let neg := orelse (c_negative e) default_negative in
+  let np := symbol (fst neg) in
+  let ns := symbol (snd neg) in
+  let pad := orelse (c_pad e) (0, SStr []) in
+  let len := zlen t + (if use_neg then zlen np + zlen ns else 0) in
+  let padded := rep_text (Z.to_nat (fst pad - len)) (symbol (snd pad)) ++ t in
+  if use_neg then np ++ padded ++ ns else padded.
+
 (* generate a counter representation; [visited]: the styles already tried on this fallback chain *)
 Fixpoint spec_gen (fuel : nat) (S : styles) (v : Z) (n : string) (visited : list string) : outcome :=
   match fuel with
@@ -130,7 +142,7 @@ Fixpoint spec_gen (fuel : nat) (S : styles) (v : Z) (n : string) (visited : list
         let use_neg := (v <? 0) && uses_negative (snd (fst (sys_of e))) in
         match spec_initial e (if use_neg then Z.abs v else v) with    (* step 3 *)
         | None => use_fallback tt                                     (* same counter value *)
-        | Some t => ROk (finish e use_neg t)                          (* steps 4, 5 *)
+        | Some t => ROk (spec_finish e use_neg t)                     (* steps 4, 5 *)
         end
     end
   end.
@@ -204,22 +216,24 @@ Definition queries_of (g : group) : list query :=
     map (fun vo => (m, cn, parse_int (fst vo), parse_out (snd vo))) (combine (split_on 32 vs []) os)
   end.
 
-(* a case: user styles (put in front of the base dictionary), spec applicable?, query groups.
-   Result: 4 * (1-based index of the first query with a non-zero mask, 0 if none) + OR of the masks. *)
-Fixpoint judge_queries (S : styles) (with_spec : bool) (qs : list query) (i : nat) (first acc : nat) : nat :=
+(* a case: user styles (put in front of the base dictionary), spec applicable?, query groups (at most 63 queries).
+   Result: 4 * (64 * i0 + i1) + OR of the masks, where i0 / i1 are the 1-based indices of the first query whose mask
+   has bit 0 / bit 1 set (0 if none). *)
+Fixpoint judge_queries (S : styles) (with_spec : bool) (qs : list query) (i : nat) (first0 first1 acc : nat) : nat :=
   match qs with
-  | [] => (4 * first + acc)%nat
+  | [] => (4 * (64 * first0 + first1) + acc)%nat
   | q :: tl =>
     let m := judge_query S with_spec q in
     judge_queries S with_spec tl (Datatypes.S i)
-                  (match first, m with O, Datatypes.S _ => i | _, _ => first end) (Nat.lor acc m)
+                  (match first0 with O => if Nat.odd m then i else O | _ => first0 end)
+                  (match first1 with O => if Nat.leb 2 m then i else O | _ => first1 end) (Nat.lor acc m)
   end.
 Definition mkcase (user : styles) (with_spec : bool) (gs : list group) : styles * bool * list group :=
   (user, with_spec, gs).
 Definition mkgroup (m : bool) (cn : cname) (a : list Uint63.int) : group := (m, cn, a).
 Definition judge_case (base : styles) (c : styles * bool * list group) : nat :=
   let '(user, with_spec, gs) := c in
-  judge_queries (user ++ base) with_spec (flat_map queries_of gs) 1%nat 0%nat 0%nat.
+  judge_queries (user ++ base) with_spec (flat_map queries_of gs) 1%nat 0%nat 0%nat 0%nat.
 
 (* ---------------------------------------------------------- well-formed dictionaries (boolean predicate) *)
 (* what the algorithms need in order not to raise: depends on the system and the two symbol descriptors only *)
